@@ -6,8 +6,9 @@ mkdir -p .work/bin evidence replays
 go build -o .work/bin/vinstr ./engine/vinstr || { echo "INFRA-ERROR cannot build vinstr"; exit 2; }
 W=.work/setup.$$
 .work/bin/vinstr -repo "${VERIF_REPO:-/repo}" -out $W/instr -shim engine/shim >/dev/null || { echo "INFRA-ERROR instrumentation failed"; rm -rf $W; exit 2; }
-for p in checks/*/; do
+for p in $(ls -d checks/*/ | grep -v racepass); do
   go build -overlay $W/instr/overlay.json -o /dev/null ./$p || echo "warning: $p does not build"
 done
+go build -race -o /dev/null ./checks/racepass || echo "warning: the -race driver does not build"
 rm -rf $W
 exit 0
